@@ -5,8 +5,9 @@ import Rivaas.Model.BindObs
 import Rivaas.Lemmas.BindPath
 /-
 Driver for C04. Case line:
-  <id> <G|T> <tag 0..4> <maxDepth> <maxSlice> <maxMap> <csv> <baseAuto> <Ty> <init Val>
-       <nsrc> { <key> <nvals> <val>* }*  <ntbl> { <string> <i10> <i0> <u10> <u0> <f> <t> <d> <j> }*
+  <id> <G|T|B> <tag 0..4> <maxDepth> <maxSlice> <maxMap> <csv> <baseAuto> <Ty> <init Val>
+       <nkeys> { <key> <nvals> <val>* }*        (entry B: <nsrc> { <tag> <nkeys> { <key> <nvals> <val>* }* }*)
+       <ntbl> { <string> <i10> <i0> <u10> <u0> <f> <t> <d> <j> }*
        => O <Val> | E <n> <name>* <D|L|M|C> | X
   Ty  ::= P <code> | R Ty | L Ty | M Ty | T <n> { <name> <exported> <anon> <q> <p> <f> <h> <c> <default> Ty }*
   Val ::= i <int> | u <nat> | f <bits> | b <0|1> | s <str> | t <str> | n | p Val | l <n> Val* | m <n> {<key> Val}* | S <n> Val*
@@ -75,6 +76,7 @@ structure Case where
   ty : Ty
   init : Val
   src : Src
+  srcs : List Src
   tbl : List (Bytes × PEntry)
 
 def pCase : P Case := do
@@ -83,10 +85,13 @@ def pCase : P Case := do
   let md ← nat; let ms ← nat; let mm ← nat; let csv ← bool; let ba ← bool
   let ty ← pTy
   let init ← pVal
-  let kvs ← list (do let k ← str; let vs ← list str; pure (k, vs))
+  let pKvs : P (List (Bytes × List Bytes)) := list (do let k ← str; let vs ← list str; pure (k, vs))
+  -- entry B (Bind / BindTo with several sources): <n> { <tag> <kvs> }*; otherwise one source of kind <tag>
+  let srcs ← if e == "B" then list (do let t ← pTag; let kvs ← pKvs; pure ({ kind := t, kvs := kvs } : Src))
+             else (do let kvs ← pKvs; pure [({ kind := tag, kvs := kvs } : Src)])
   let tbl ← list pEntry
   pure { entry := e, tag := tag, cfg := { maxDepth := md, maxSlice := ms, maxMap := mm, csv := csv, baseAuto := ba },
-         ty := ty, init := init, src := { kind := tag, kvs := kvs }, tbl := tbl }
+         ty := ty, init := init, src := srcs.headD { kind := tag, kvs := [] }, srcs := srcs, tbl := tbl }
 
 def pErrClass : P Err := do
   let t ← tok
@@ -141,7 +146,7 @@ def preconditions (c : Case) : Bool :=
   (match c.ty, c.init with
    | .struct fs, .struct ivs => wts fs ivs && Spec.inGrammarFs fs
    | _, _ => false) &&
-  Spec.srcOK c.src &&
+  c.srcs.all Spec.srcOK &&
   c.tbl.all (fun e => match e.2.f with
     | some (_, _, above, inf32) => !inf32 || above
     | none => true)
@@ -154,12 +159,16 @@ def step (line : String) : String :=
     | some c, some o =>
       if !preconditions c then s!"{id} bad-case preconditions" else
       let P := lookupP c.tbl
-      let m := toObs (bind P c.cfg c.tag c.ty c.init c.src)
-      let mi := encObs m == encObs o
-      let s := match c.ty with
-        | .struct fs => Spec.specOK P c.cfg c.tag fs c.init c.src o
-        | _ => false
-      verdict id mi s "-" (encObs m)
+      match c.ty with
+      | .struct fs =>
+        if c.entry == "B" then
+          -- several sources: bindMultiSource against the folded oracle
+          let m := toObs (bindMulti P c.cfg fs c.init c.srcs)
+          verdict id (encObs m == encObs o) (Spec.specMulti P c.cfg fs c.init c.srcs o) "-" (encObs m)
+        else
+          let m := toObs (bind P c.cfg c.tag c.ty c.init c.src)
+          verdict id (encObs m == encObs o) (Spec.specOK P c.cfg c.tag fs c.init c.src o) "-" (encObs m)
+      | _ => s!"{id} bad-case type"
     | _, _ => s!"{id} bad-case"
 
 end Rivaas.DriverC04
